@@ -1,11 +1,12 @@
 SPECIFICATION Spec
 CONSTANTS
   Slots = {1, 2}
-  Kinds = {"slp", "hyp", "idt", "pot"}
+  Kinds = {"slp", "hyp", "idt", "pot", "fmm"}
   RegVals = {1, 4}
   SingVals = {3, 4}
   MassCacheKeyed = TRUE
   MassHonoursExplicit = FALSE
+  FmmCacheKeyed = TRUE
   MaxDepth = 7
   EmitJson = FALSE
 INVARIANT TypeOK
